@@ -31,6 +31,7 @@ import (
 type c05DispObs struct {
 	Decoded  int
 	Branches []string
+	NilRet   []bool // HandlePacket returned nil for packet i
 	Panic    string
 	Stack    string
 	PanicPkt string
@@ -60,7 +61,7 @@ func c05Branch(t packet.Type) string {
 func c05Frames(stack string) string {
 	var fr []string
 	for _, l := range strings.Split(stack, "\n") {
-		if strings.HasPrefix(l, "tunnox-core/") && !strings.Contains(l, "verifkit") && !strings.Contains(l, "c05") {
+		if strings.HasPrefix(l, "tunnox-core/") && !strings.Contains(l, "verifkit") && !strings.Contains(l, "c05") && !strings.Contains(l, "TestVerif") {
 			if i := strings.LastIndex(l, "("); i > 0 {
 				l = l[:i]
 			}
@@ -127,6 +128,7 @@ func c05Serve(n *miniNode, data []byte) (obs c05DispObs) {
 		if obs.Panic != "" {
 			break
 		}
+		obs.NilRet = append(obs.NilRet, herr == nil)
 		if herr != nil {
 			obs.Errs++
 			if pkt.PacketType&0x3F == packet.TunnelOpen && coreerrors.IsCode(herr, coreerrors.CodeTunnelModeSwitch) {
@@ -216,6 +218,12 @@ func TestVerifC05Dispatch(t *testing.T) {
 				run.Count("inputs_with_reply", 1)
 			}
 			run.Count("handler_errors", int64(o.Errs))
+			if in.Family == "session" && o.Decoded >= 2 && o.Branches[0] == "handshake" {
+				run.Count("commands_after_handshake", 1)
+				if o.NilRet[0] && o.NilRet[1] {
+					run.Count("commands_after_handshake_accepted", 1)
+				}
+			}
 			if o.ModeSw {
 				run.Count("tunnel_mode_switches", 1)
 			}
@@ -227,7 +235,7 @@ func TestVerifC05Dispatch(t *testing.T) {
 				oc += "+reply"
 			}
 			key := o.Branches[0] + "|" + oc
-			if in.Family == "bodies" {
+			if in.Family == "bodies" || in.Family == "session" {
 				key += "|" + in.Sub
 			} else {
 				key += "|" + in.Family
@@ -247,6 +255,7 @@ func TestVerifC05Dispatch(t *testing.T) {
 		run.Floor("branch_"+b, 100)
 	}
 	run.Floor("inputs_with_reply", 100)
+	run.Floor("commands_after_handshake", 500)
 }
 
 func c05Clip(s string, n int) string {
